@@ -181,6 +181,7 @@ func evalDecision(fn *ssa.Function, rank map[int]int, quorum bool) string {
 
 func checkC12(r *Result) {
 	P := r.P
+	defer checkLostUpdates(r, "C12")
 	r.Explanation = "Structural rules of the dispute state machine and tally, decided on SSA: (1) the constants ever stored to Dispute.DisputeStatus, per function, equal the specified transition relation, each store under the path facts that fix its source state (prevote/expired => failed; fee met => voting; tally only from voting; unresolved => new round with a fresh id; execution => resolved only for a tallied vote after the end time); the snapshot block number of a dispute is written once, at creation; (2) a vote is recorded only for a dispute in voting, by an address that has not voted in this round, before the vote end, with all four power look-ups taken at the dispute's recorded block; (3) algebraic normal forms: Ratio = 25*part*PR/total, every group contributes votes_c*PR/(sum of its votes), the team adds PR to its choice and 25*PR to the ratio, quorum is 51*PR; (4) the decision in UpdateDispute is interpreted over all 13 weak orderings of (support, against, invalid) x quorum and must always record a result, the strict maximum's class when there is one; (5) enum switches are exhaustive; (6) a later round costs 5% of the slash amount times 2^round, capped."
 	r.NotDecided = "the tally arithmetic against an exact rational reference (truncation), that no counter goes below zero, deadline arithmetic on times, which voting power a past block really had"
 	r.Assumptions = []string{"reporter and oracle keepers return the stake / tips as of the block number they are given"}
